@@ -32,6 +32,8 @@ enum Code
   O_COPY_CTOR,
   O_COPY_ASSIGN,
   O_SELF_ASSIGN,
+  O_MOVE_CTOR,    // O = new OwnedArray(std::move(*other)): the source must stay an array of its own - unchanged (a copy) or empty
+  O_MOVE_ASSIGN,  // *O = std::move(*other)
   O_WRITE,
   O_DESTROY
 };
@@ -85,6 +87,8 @@ static std::vector<Op> make_ops()
   add(O_COPY_CTOR, 0, 1, 0, "O0 = new OwnedArray(*O1)", "copy constructor");
   add(O_COPY_ASSIGN, 0, 1, 0, "*O0 = *O1", "copy assignment");
   add(O_SELF_ASSIGN, 0, 0, 0, "*O0 = *O0", "copy assignment");
+  add(O_MOVE_CTOR, 0, 1, 0, "O0 = new OwnedArray(std::move(*O1))", "construction from an rvalue OwnedArray");
+  add(O_MOVE_ASSIGN, 0, 1, 0, "*O0 = std::move(*O1)", "assignment from an rvalue OwnedArray");
   add(O_WRITE, 0, 0, 0, "(*O0)[0] = fresh", "element write");
   add(O_DESTROY, 0, 0, 0, "delete O0", "destructor");
   // second slot
@@ -92,6 +96,7 @@ static std::vector<Op> make_ops()
   add(O_PTR, 1, 1, 1, std::string("O1 = new OwnedArray S1") + var[1], "OwnedArray(T*,size_t)");
   add(O_COPY_CTOR, 1, 0, 0, "O1 = new OwnedArray(*O0)", "copy constructor");
   add(O_COPY_ASSIGN, 1, 0, 0, "*O1 = *O0", "copy assignment");
+  add(O_MOVE_ASSIGN, 1, 0, 0, "*O1 = std::move(*O0)", "assignment from an rvalue OwnedArray");
   add(O_ASSIGN_VEC, 1, 1, 0, "*O1 = S1", "operator=(vector&)");
   add(O_RESIZE, 1, 3, 0, "O1->resize(3,fresh)", "resize");
   add(O_RESIZE, 1, 9, 0, "O1->resize(9,fresh)", "resize");
@@ -198,7 +203,7 @@ struct World
     touched[0] = touched[1] = false;
     if (op.code >= O_DEF) {
       touched[s] = true;
-      if (op.code == O_COPY_CTOR || op.code == O_COPY_ASSIGN)
+      if (op.code == O_COPY_CTOR || op.code == O_COPY_ASSIGN || op.code == O_MOVE_CTOR || op.code == O_MOVE_ASSIGN)
         touched[op.a] = true;
       if (op.code == O_RESET_FROM_OTHER || op.code == O_PTR_FROM_OTHER)
         touched[1 - s] = true;
@@ -368,6 +373,27 @@ struct World
         return false;
       *O[s] = *O[s];
       return true;
+    case O_MOVE_CTOR:
+    case O_MOVE_ASSIGN: {
+      const int o = op.a;
+      if (!M[o].live || (op.code == O_MOVE_ASSIGN && !M[s].live))
+        return false;
+      if (op.code == O_MOVE_CTOR) {
+        OwnedArray<T> *nv = new OwnedArray<T>(std::move(*O[o]));
+        delete O[s];
+        O[s] = nv;
+      } else
+        *O[s] = std::move(*O[o]);
+      set_contents(s, M[o].c);
+      M[s].role = R_COPY;
+      // the statement does not say what a moved-from array holds: unchanged (this tree copies) and empty are both
+      // "a size() and data() consistent with the last operation"; anything else is judged against "unchanged"
+      if (O[o]->size() == 0 && !M[o].c.empty())
+        M[o].c.clear();
+      if (M[o].role == R_PLAIN)
+        M[o].role = R_SOURCE;
+      return true;
+    }
     case O_WRITE: {
       if (!M[s].live || M[s].c.empty())
         return false;
